@@ -254,6 +254,14 @@ def _compare(  # noqa: C901, PLR0912
             if not delete:
                 continue
 
+            if (
+                change.old.meta
+                and change.old.meta.isdir
+                and new.has_node(change.key)
+            ):
+                # still a directory of `new`, just not an explicit entry there
+                continue
+
             _add_delete(change.old)
         elif change.typ == UNCHANGED:
             assert relink
